@@ -77,6 +77,10 @@ def run(tier):
         for b in roots[:6]:
             pairs.append((a, b))
             srcs.append('roots')
+    # shared part b = a functor of 3-5 atoms, the two occurrences differing in one atom's feature (any position) or in nothing
+    for x, y, note in gen.deep_pairs(rng, 'ja', 4000 if tier == 'quick' else 40000):
+        pairs.append((x, y))
+        srcs.append('deep-shared-part: ' + note)
     if tier == 'quick':
         for _ in range(30000):
             pairs.append((rng.choice(tg), rng.choice(tg)))
